@@ -64,8 +64,20 @@ WhyBalance(c) ==
 
 WhyCheck(c) == IF JudgeCheck(c) THEN "ok" ELSE "verdict-or-diagnostic"
 
+\* ---- kind "delta": amounts outside the integer regime of the model (fractional quantities,
+\* arbitrary prices, 8-decimal truncation): only the statement of C01 itself is judged, on the
+\* printed digits: every cell of every Delta row is zero.  obs.delta : Seq(Seq(Seq(digit)))
+WhyDelta(c) ==
+  IF c.obs.exit # 0 THEN "ok"                       \* e.g. a missing price; not this clause's subject
+  ELSE IF c.obs.bad THEN "unreadable-output"
+  ELSE IF Len(c.obs.delta) = 0 THEN "no-delta-row"
+  ELSE IF \E r \in 1..Len(c.obs.delta) : \E k \in 1..Len(c.obs.delta[r]) :
+            \E d \in 1..Len(c.obs.delta[r][k]) : c.obs.delta[r][k][d] # 0 THEN "delta-nonzero"
+  ELSE "ok"
+
 Why(c) ==
   CASE c.kind = "check" -> WhyCheck(c)
+    [] c.kind = "delta" -> WhyDelta(c)
     [] c.kind = "balance" -> WhyBalance(c)
 
 Init == i = 1 /\ failed = << >>
